@@ -173,8 +173,10 @@ void fast_binary_dilate_erode_2d(numpy::aligned_array<bool> res, const numpy::al
         for (numpy::index_type x = 0; x != Bx; ++x) {
             if (!Bc.at(y,x)) continue;
             const numpy::index_type dy = y-Cy;
-            const numpy::index_type dx = x-Cx;
-            if (t_abs(dy) >= Ny || t_abs(dx) >= Nx) continue;
+            numpy::index_type dx = x-Cx;
+            // offsets reaching beyond the image read the replicated edge (dy is clamped per row below)
+            if (dx > Nx) dx = Nx;
+            if (dx < -Nx) dx = -Nx;
             if (dy || dx) {
                 positions.push_back(is_erosion ? dy: -dy);
                 positions.push_back(is_erosion ? dx: -dx);
